@@ -51,7 +51,7 @@ var Prop = &engine.Prop{
 		{Name: "bigu32", Quick: 2400, Thorough: 240000, Fn: bigCase},
 		{Name: "u32tip", Quick: 2000, Thorough: 200000, Fn: tipCase},
 		{Name: "lists", Quick: 1200, Thorough: 120000, Fn: listCase},
-		{Name: "conc-marshal", Quick: 120, Thorough: 6000, Fn: concMarshalCase},
+		{Name: "conc-marshal", Quick: 240, Thorough: 8000, Fn: concMarshalCase},
 	},
 	// All counters are pure functions of (seed, case counts); floors are ~1/10 of
 	// what seed 1 quick reaches.
